@@ -74,7 +74,7 @@ def work_pairs_modes(item):
                 if slow != (family == "slow") or not M.applicable(my, F, cid, sy):
                     continue
                 for ow in (False, True):
-                    acc.add(("pair", F, cid, (sx, sy), (mx, my), ow), C.check_pair(F, cid, sx, sy, mx, my, ow, acc.stats))
+                    acc.run(("pair", F, cid, (sx, sy), (mx, my), ow), C.check_pair, F, cid, sx, sy, mx, my, ow)
     return acc.result()
 
 
@@ -106,10 +106,7 @@ def work_triples_mixed(item):
                 if not (ok[mx, xi] and ok[my, yi] and ok[mz, zi]):
                     continue
                 for ow in (False, True):
-                    acc.add(
-                        ("triple", F, cid, (sx, sy, sz), (mx, my, mz), ow),
-                        C.check_triple(F, cid, sx, sy, sz, mx, my, mz, ow, acc.stats),
-                    )
+                    acc.run(("triple", F, cid, (sx, sy, sz), (mx, my, mz), ow), C.check_triple, F, cid, sx, sy, sz, mx, my, mz, ow)
                     did = True
             if did and C._nontrivial(sx, sy, sz):
                 bitmap |= 1 << (idx[yi] * n_ref + idx[zi])
